@@ -52,6 +52,11 @@ def generate(ctx):
     ents.append(('pe_terms', {'kind': 'dry', 'rest': True, 'upwind': True}))
     ents.append(('pe_terms', {'kind': 'dry', 'upwind': True}))
     ents.append(('sw_terms', {'rest_layer': True}))
+    # non-default options and layouts; coefficients up to the highest retained (unclipped) wavenumber
+    ents.append(('pe_terms', {'kind': 'moist', 'matmul': 'sparse'}))
+    ents.append(('pe_terms', {'kind': 'dry', 'impl': 'fast', 'inv_methods': True}))
+    ents.append(('pe_terms', {'kind': 'dry', 'degree': 3}))
+    ents.append(('pe_step', {'kind': 'dry', 'integrator': 'crank_nicolson_rk2', 'filters': [], 'nsteps': 1, 'dt': -0.02}))
     # moist equations linearised at a state with identically zero humidity, humidity in the tangent
     ents.append(('pe_terms', {'kind': 'moist', 'dry_air': True}))
     # digital filter initialisation: a multi-step entry point evaluated several times in one process
@@ -241,8 +246,8 @@ def r_interp(ctx, a):
         _ad_oracles(ctx, f'{nm} wrt query', lambda t: jnp.stack([fn(t[i], jnp.asarray(xp), fp) for i in range(5)]), q, dq, h=1e-4)
 
 
-def _pe_setup(rng, kind, K=3, upwind=False):
-    g = dyn.grid(M=4, L=5, I=13, J=7)
+def _pe_setup(rng, kind, K=3, upwind=False, matmul=None, impl='real', degree=2):
+    g = dyn.grid(M=4, L=5, I=13, J=7, impl=impl) if impl == 'real' else dyn.grid(M=4, L=5, I=13, J=7, impl='fast', base_shape_multiple=4)
     c = dyn.coords(g, util.uneven_boundaries(rng, K))
     specs = dyn.pe_specs()
     tref = 250.0 + rng.integers(-20, 21, size=K).astype(np.float64)
@@ -251,10 +256,14 @@ def _pe_setup(rng, kind, K=3, upwind=False):
     if upwind:
         from dinosaur import sigma_coordinates as sc
         kw['vertical_advection'] = sc.upwind_vertical_advection
+    if matmul:
+        kw['vertical_matmul_method'] = matmul
+    if oro.shape != tuple(g.modal_shape):          # padded layout
+        oro = np.pad(oro, [(0, g.modal_shape[0] - oro.shape[0]), (0, g.modal_shape[1] - oro.shape[1])])
     eq = dyn.pe_equation(kind, c, specs, tref, oro, **kw)
     admissible = lambda r: r * (np.asarray(g.mask) & (g.modal_mesh[1] <= 2))
     def make(with_mean=True):
-        st = dyn.pe_state(rng, c, 2, dyn.PE_TRACERS[kind], with_time=(kind != 'dry'))
+        st = dyn.pe_state(rng, c, degree, dyn.PE_TRACERS[kind], with_time=(kind != 'dry'))
         return st
     return g, c, eq, make
 
@@ -271,9 +280,11 @@ def _at_rest(st):
 
 def r_pe_terms(ctx, a):
     rng = _seed(ctx, a)
-    g, c, eq, make = _pe_setup(rng, a['kind'], upwind=a.get('upwind', False))
+    g, c, eq, make = _pe_setup(rng, a['kind'], upwind=a.get('upwind', False), matmul=a.get('matmul'), impl=a.get('impl', 'real'),
+                               degree=a.get('degree', 2))
     x = _to_jnp(make()); v = _to_jnp(make())
-    tag = a['kind'] + ('[upwind]' if a.get('upwind') else '')
+    tag = a['kind'] + ('[upwind]' if a.get('upwind') else '') + ('[%s]' % a['matmul'] if a.get('matmul') else '') + \
+        ('[fast,padded]' if a.get('impl') == 'fast' else '') + ('[degree %d]' % a['degree'] if a.get('degree') else '')
     if a.get('rest'):
         x = _at_rest(x); tag += '[at rest]'
     if a.get('dry_air'):
@@ -296,14 +307,17 @@ def r_pe_terms(ctx, a):
     _ad_oracles(ctx, f'{tag}.implicit_terms', eq.implicit_terms, x, v)
     for eta in (0.05, -0.05):
         _ad_oracles(ctx, f'{tag}.implicit_inverse eta={eta}', lambda s: eq.implicit_inverse(s, eta), x, v)
+    if a.get('inv_methods') and a['kind'] == 'dry':
+        for meth in ('stacked', 'blockwise'):
+            _ad_oracles(ctx, f'{tag}.implicit_inverse method={meth}', lambda s: eq.implicit_inverse(s, 0.05, method=meth), x, v)
 
 
 def r_pe_step(ctx, a):
     rng = _seed(ctx, a); m = dyn.mods(); ti = m['ti']
     g, c, eq, make = _pe_setup(rng, a['kind'])
-    dt = 0.02
+    dt = a.get('dt', 0.02)
     step = dyn.integrator(a['integrator'], eq, dt)
-    step = ti.step_with_filters(step, dyn.step_filters(a['filters'], g, dt))
+    step = ti.step_with_filters(step, dyn.step_filters(a['filters'], g, abs(dt)))
     if a['nsteps'] > 1: step = ti.repeated(step, a['nsteps'])
     x = _to_jnp(make()); v = _to_jnp(make())
     _ad_oracles(ctx, f'{a["kind"]} step {a["integrator"]} filters={a["filters"]} n={a["nsteps"]}', step, x, v, fd_tol=1e-6)
